@@ -84,7 +84,7 @@ def jobs(tier):
             subs += split_by_order(s, [('a', n) for n in names[:2]] + ([(names[0], names[1])] if len(names) >= 2 else []))
         else:
             subs.append(s)
-    return pack(subs, 32, lambda s: 1.0, 'c14-', weights='distinct', timeout=170 if tier == 'quick' else 300)
+    return pack(subs, 32, lambda s: 1.0, 'c14-', weights='distinct', timeout=240 if tier == 'quick' else 300)
 
 
 def bounds_text(tier):
